@@ -91,6 +91,25 @@ func c20XMLBodies(valid []byte) []string {
 	return out
 }
 
+// c20Relevant: the query arguments each route documents (S3 API reference).
+var c20Relevant = map[string][]string{
+	"ListBuckets":             {"max-buckets", "continuation-token", "prefix"},
+	"ListObjects":             {"max-keys", "marker", "prefix", "delimiter", "encoding-type"},
+	"ListObjectsV2":           {"max-keys", "start-after", "continuation-token", "prefix", "delimiter", "encoding-type"},
+	"ListObjectVersions":      {"max-keys", "key-marker", "version-id-marker", "prefix", "delimiter"},
+	"ListMultipartUploads":    {"max-uploads", "key-marker", "upload-id-marker", "prefix", "delimiter"},
+	"ListParts":               {"max-parts", "part-number-marker", "uploadId"},
+	"GetObject":               {"partNumber", "versionId", "response-content-type"},
+	"HeadObject":              {"partNumber", "versionId"},
+	"GetObjectVersion":        {"versionId", "partNumber"},
+	"GetObjectAttributes":     {"versionId", "max-parts", "part-number-marker"},
+	"UploadPart":              {"partNumber", "uploadId"},
+	"UploadPartCopy":          {"partNumber", "uploadId"},
+	"CompleteMultipartUpload": {"uploadId"},
+	"AbortMultipartUpload":    {"uploadId"},
+	"DeleteObjectVersion":     {"versionId"},
+}
+
 type c20Field struct {
 	kind string // query | header | body | method | target | auth | chunk
 	name string
@@ -159,7 +178,7 @@ func c20Fields(rt *routes.Route, rq *s3c.Req) []c20Field {
 			"<Tagging><TagSet>|<Tag><Key>k</Key><Value>v</Value></Tag>|</TagSet></Tagging>", "<a>|<a>|</a>", "|A|"}})
 	}
 	if rt != nil && rt.Streams {
-		fs = append(fs, c20Field{"chunk", "framing", []string{"-5\r\nabc\r\n0\r\n\r\n", "ffffffffffffffff\r\nabc", "7fffffffffffffff\r\nx\r\n", "zz\r\n", "5\r\nabc", "5;chunk-signature=\r\nabcde\r\n0;chunk-signature=\r\n\r\n", "0\r\n", "0\r\nx-amz-checksum-crc32:", "0\r\nx-amz-checksum-crc32:AAAA\r\n", "\r\n\r\n\r\n", "3\nabc\n0\n\n", "3\r\nabc\r\n0\r\nx-amz-checksum-crc32:AAAAAA==\r\n\r\n", "3\r\nabcX\r\n0\r\n\r\n", "40000000\r\n", "1\r\na\r\n" + strings.Repeat("1\r\na\r\n", 2000) + "0\r\n\r\n", ";chunk-signature=x\r\n", "3;chunk-signature=" + strings.Repeat("0", 64) + "\r\nabc\r\n0;chunk-signature=" + strings.Repeat("0", 64) + "\r\n\r\n"}})
+		fs = append(fs, c20Field{"chunk", "framing", []string{"-5\r\nabc\r\n0\r\n\r\n", "ffffffffffffffff\r\nabc", "7fffffffffffffff\r\nx\r\n", "zz\r\n", "5\r\nabc", "5;chunk-signature=\r\nabcde\r\n0;chunk-signature=\r\n\r\n", "0\r\n", "0\r\nx-amz-checksum-crc32:", "0\r\nx-amz-checksum-crc32:AAAA\r\n", "\r\n\r\n\r\n", "3\nabc\n0\n\n", "3\r\nabc\r\n0\r\nx-amz-checksum-crc32:AAAAAA==\r\n\r\n", "3\r\nabcX\r\n0\r\n\r\n", "40000000\r\n", "1\r\na\r\n" + strings.Repeat("1\r\na\r\n", 2000) + "0\r\n\r\n", ";chunk-signature=x\r\n", "-1;chunk-signature=" + strings.Repeat("0", 64) + "\r\nabc\r\n0;chunk-signature=" + strings.Repeat("0", 64) + "\r\n\r\n", "-5;chunk-signature=x\r\nabcdefgh", "ffffffffffffffff;chunk-signature=" + strings.Repeat("0", 64) + "\r\nabc", "7fffffffffffffff;chunk-signature=" + strings.Repeat("0", 64) + "\r\nx\r\n", "-8000000000000000;chunk-signature=" + strings.Repeat("0", 64) + "\r\nx", "3;chunk-signature=" + strings.Repeat("0", 64) + "\r\nabc\r\n0;chunk-signature=" + strings.Repeat("0", 64) + "\r\n\r\n"}})
 	}
 	return fs
 }
@@ -182,6 +201,16 @@ func (c20) Gen(seed uint64, run int, tier string) *core.Case {
 		}
 		fs := c20Fields(&rt, &s3c.Req{Method: rt.Method, Body: []byte("x")})
 		f := fs[r.IntN(len(fs))]
+		// half of the cases on a route with documented query arguments mutate one of THOSE arguments
+		// (a uniformly chosen field is irrelevant to most routes and only tests that it is ignored)
+		if rel := c20Relevant[rt.ID]; len(rel) > 0 && r.IntN(2) == 0 {
+			name := rel[r.IntN(len(rel))]
+			for _, g := range fs {
+				if g.kind == "query" && g.name == name {
+					f = g
+				}
+			}
+		}
 		// bias toward body mutations for routes that parse bodies
 		if (rt.Method == "PUT" || rt.Method == "POST" || rt.Method == "PATCH") && !rt.Streams && r.IntN(2) == 0 {
 			for _, g := range fs {
